@@ -545,6 +545,16 @@ theorem int_primitive_table_ok :
     intUnaryOps.all (fun e => [("-", "CPyTagged_Negate"), ("~", "CPyTagged_Invert")].lookup e.1 == some e.2.1) = true ∧
     ["-", "~"].all (fun op => intUnaryOps.any (fun r => r.1 == op)) = true := by decide
 
+/-- A primitive whose result type is a native int or a float has an *overlapping* error value (every bit pattern,
+    including -113 / 239 / -113.0, is an ordinary result): it must be registered `ERR_NEVER` (0), `ERR_ALWAYS` (3) or
+    `ERR_MAGIC_OVERLAPPING` (4) — with plain `ERR_MAGIC` (1) or `ERR_FALSE` (2) the generated code takes a legitimate
+    result equal to the magic value for a raised exception without asking `PyErr_Occurred()`. -/
+theorem native_result_error_kinds_ok :
+    nativeResultOps.all (fun e => e.2.2.2 == 0 || e.2.2.2 == 3 || e.2.2.2 == 4) = true ∧
+    ["CPyInt64_Divide", "CPyInt64_Remainder", "CPyInt32_Divide", "CPyInt32_Remainder", "CPyInt16_Divide",
+     "CPyInt16_Remainder", "CPyTagged_TrueDivide", "CPyFloat_FromTagged"].all
+      (fun c => nativeResultOps.any (fun e => e.2.1 == c && e.2.2.2 == 4)) = true := by decide
+
 /-! ## comparison lowering (`compare_tagged` with the regenerated `int_comparison_op_mapping`) -/
 
 theorem compare_tagged_correct (V : Valuation) (l r : BitVec 64) :
